@@ -287,6 +287,64 @@ theorem roundToDbl_exact_on_doubles (neg : Bool) (num den m : Nat) (E : Int) (hd
     (hm : m < 9007199254740992) (hE1 : -1074 ≤ E) (hE2 : E ≤ 971) :
     Dbl.eqv (roundToDbl neg num den) (.fin neg m E) := roundToDbl_exact neg num den m E hd hx hm hE1 hE2
 
+/-- CORRECT ROUNDING of `roundToDbl` for EVERY positive rational `num / den` below the overflow threshold (so of `strtodM`
+    for every decimal text - any number of significant digits, with or without exponent, normal and subnormal range):
+    (1) the exponent `e` it rounds at is the exponent of the binary64 grid at the value; (2) the mantissa `M` is a nearest
+    integer to `num / den / 2^e`, the even one on a tie; (3) the result is `M * 2^e` (renormalised when `M = 2^53`,
+    infinity when that leaves the range) -/
+theorem roundToDbl_correctly_rounded (neg : Bool) (num den : Nat) (hd : 0 < den) (h : pickExp num den ≤ 971) :
+    (-1074 ≤ pickExp num den ∧ qOf num den (pickExp num den) < 9007199254740992 ∧
+      (pickExp num den = -1074 ∨ 9007199254740992 ≤ qOf num den (pickExp num den - 1))) ∧
+    (2 * (roundHalfEven (qNum num (pickExp num den)) (qDen den (pickExp num den)) * qDen den (pickExp num den)) ≤
+        2 * qNum num (pickExp num den) + qDen den (pickExp num den) ∧
+      2 * qNum num (pickExp num den) ≤
+        2 * (roundHalfEven (qNum num (pickExp num den)) (qDen den (pickExp num den)) * qDen den (pickExp num den)) +
+          qDen den (pickExp num den) ∧
+      ((2 * (roundHalfEven (qNum num (pickExp num den)) (qDen den (pickExp num den)) * qDen den (pickExp num den)) =
+          2 * qNum num (pickExp num den) + qDen den (pickExp num den) ∨
+        2 * qNum num (pickExp num den) =
+          2 * (roundHalfEven (qNum num (pickExp num den)) (qDen den (pickExp num den)) * qDen den (pickExp num den)) +
+            qDen den (pickExp num den)) →
+        roundHalfEven (qNum num (pickExp num den)) (qDen den (pickExp num den)) % 2 = 0)) ∧
+    roundToDbl neg num den =
+      (if roundHalfEven (qNum num (pickExp num den)) (qDen den (pickExp num den)) = 9007199254740992 then
+        (if 971 < pickExp num den + 1 then .inf neg else .fin neg 4503599627370496 (pickExp num den + 1))
+       else .fin neg (roundHalfEven (qNum num (pickExp num den)) (qDen den (pickExp num den))) (pickExp num den)) := by
+  refine ⟨pickExp_grid num den h, roundHalfEven_nearest _ _ (qDen_pos den _ hd), ?_⟩
+  unfold roundToDbl
+  simp only []
+  rw [if_neg (by omega)]
+
+/-- overflow: when no exponent up to 971 fits, the value is at least `2^53 * 2^971 = 2^1024` and the result is infinity -/
+theorem roundToDbl_overflow (neg : Bool) (num den : Nat) (h : 971 < pickExp num den) :
+    roundToDbl neg num den = .inf neg ∧ ∃ x : Int, 971 ≤ x ∧ 9007199254740992 ≤ qOf num den x := by
+  constructor
+  · unfold roundToDbl
+    simp only []
+    rw [if_pos h]
+  · unfold pickExp at h
+    by_cases hok : expOk num den (expHint num den) = true
+    · rw [if_pos hok] at h
+      unfold expOk at hok
+      simp only [Bool.and_eq_true, Bool.or_eq_true, decide_eq_true_eq] at hok
+      rcases hok.2 with h2 | h2
+      · omega
+      · exact ⟨expHint num den - 1, by omega, h2⟩
+    · rw [if_neg hok] at h
+      obtain ⟨_, _, _, d⟩ := findExp_min num den 2048 (-1074)
+      exact ⟨971, Int.le_refl _, d 971 (by omega) h⟩
+
+/-- nstd never produces the hexadecimal form: for EVERY double the text of `fromDouble` is in the modelled part of `strtodM` -/
+theorem fromDouble_never_hex (x : Dbl) : strtodM (cstr (fromDouble x)) ≠ none := by
+  intro h
+  obtain ⟨c, hc, hx⟩ := strtodM_none_has_x _ h
+  unfold fromDouble at hc
+  rw [printf_eq, cstr_nonzero _ (fmtF_nonzero x)] at hc
+  have := fmtF_no_x x c hc
+  omega
+
+example : roundToDbl false 9007199254740993 1 = .fin false 4503599627370496 1 := by decide         -- 2^53 + 1: tie, to even
+example : roundToDbl false 1 10 = .fin false 7205759403792794 (-56) := by decide                   -- 0.1
 example : strtodM [49, 46, 53] = some (.fin false 6755399441055744 (-52)) := by decide             -- "1.5"
 example : strtodM [48, 120, 49, 112, 51] = none := by decide                                       -- "0x1p3": hexadecimal form
 example : Exact 15 10 3 (-1) := by simp [Exact]
